@@ -64,6 +64,9 @@ pub struct AssemblyWindow {
 
     alloc: usize,
     max_alloc: usize,
+
+    #[cfg(feature = "verif")]
+    verif_dud_count: u64,
 }
 
 impl AssemblyWindow {
@@ -77,7 +80,20 @@ impl AssemblyWindow {
 
             alloc: 0,
             max_alloc: max_alloc_ceil,
+
+            #[cfg(feature = "verif")]
+            verif_dud_count: 0,
         }
+    }
+
+    #[cfg(feature = "verif")]
+    pub fn verif_alloc(&self) -> usize {
+        self.alloc
+    }
+
+    #[cfg(feature = "verif")]
+    pub fn verif_dud_count(&self) -> u64 {
+        self.verif_dud_count
     }
 
     pub fn try_add(&mut self, idx: usize, datagram: frame::Datagram) -> Option<Packet> {
@@ -94,6 +110,8 @@ impl AssemblyWindow {
 
                 if self.alloc + alloc_size > self.max_alloc {
                     // Never should have come here!
+                    #[cfg(feature = "verif")]
+                    { self.verif_dud_count += 1; }
                     self.window[idx] = WindowEntry::Closed(0);
 
                     return Some(Packet {
